@@ -82,7 +82,7 @@ func TestUnescape(t *testing.T) {
 		{`\377\0001`, "\xff\x001", false},
 		{`\v\f\a\b\e\'`, "\v\f\a\b\x1b'", false},
 		{`mixed\x41\101A\n`, "mixedAAA\n", false},
-		{`\x4`, "\x04", false},    // short hex escape
+		{`\x4`, "\x04", false}, // short hex escape
 		{`\x41\x4`, "A\x04", false},
 		{`abc\x41`, "abcA", false}, // length not a multiple of 4
 		{`\x41bcd`, "Abcd", false}, // multiple of 4 but not all hex groups
